@@ -358,7 +358,7 @@ def prove_lemmas(modname):
             ind = lem["induct"]
             statuses = []
             if ind is None:
-                r = check_valid(hs, g, used, want_model=False)
+                r = check_valid(hs, g, used, want_model=False, max_fuel=lem.get("fuel", 3))
                 statuses.append(r["status"])
             else:
                 v = vars_[ind]
